@@ -425,6 +425,16 @@ func (w *world) simulate(choices []int) {
 
 	resCh := make(chan mineRet, 1)
 	data := persistentData(cfg.data())
+	// the Worker object kept by this process for this worker count: looked up here, by the root, not by the caller
+	// actor — the table is the simulator's own, and two caller actors of different runs are not ordered with each
+	// other when the earlier run never returned (reported by the autorace flavour against a seeded change)
+	var wk1 *pow1.Worker
+	var wk2 *pow2.Worker
+	if cfg.Version == 1 {
+		wk1 = worker1(cfg.Workers)
+	} else {
+		wk2 = worker2(cfg.Workers)
+	}
 	// caller actor
 	go func() {
 		defer func() {
@@ -436,9 +446,9 @@ func (w *world) simulate(choices []int) {
 		var n uint64
 		var err error
 		if cfg.Version == 1 {
-			n, err = worker1(cfg.Workers).Mine(ctx, data, cfg.targetF())
+			n, err = wk1.Mine(ctx, data, cfg.targetF())
 		} else {
-			n, err = worker2(cfg.Workers).Mine(ctx, data, cfg.TargetBits)
+			n, err = wk2.Mine(ctx, data, cfg.TargetBits)
 		}
 		resCh <- mineRet{nonce: n, err: err}
 	}()
